@@ -116,8 +116,9 @@ def build(case):
         return '<component name="%s">%s<math %s>%s</math></component>' % (name, ''.join(vs), MNS, eq)
 
     def comp_G():
-        return ('<component name="G"><variable name="gw" units="%s" interface="public"/><variable name="gout" units="%s" interface="public"/>'
-                '<math %s><apply><eq/><ci>gout</ci><apply><plus/><ci>gw</ci>%s</apply></apply></math></component>') % (child_u, child_u, MNS, cnu(0.0, child_u))
+        # the grandchild works in units of its own ('dm_g', a decimetre) that nothing else in the library component uses
+        return ('<component name="G"><variable name="gw" units="dm_g" interface="public"/><variable name="gout" units="dm_g" interface="public"/>'
+                '<math %s><apply><eq/><ci>gout</ci><apply><plus/><ci>gw</ci>%s</apply></apply></math></component>') % (MNS, cnu(0.0, 'dm_g'))
 
     lib = {}
     with_child = st in ('encapsulated-child', 'child-is-import', 'grandchild')
@@ -149,6 +150,8 @@ def build(case):
         u1 = list(lib1_units)
         if st != 'child-is-import':
             u1 += child_lib_units
+        if st == 'grandchild':
+            u1.append(units_xml('dm_g', 'metre', prefix='deci'))
         lib['lib1.cellml'] = '<?xml version="1.0"?><model %s name="lib1">%s%s%s%s</model>' % (NS, ''.join(u1), ''.join(lib1), conns1, enc1)
     # ---- ground truth for one instance fed with a (metres)
     def f(a_m):
